@@ -264,6 +264,41 @@ def shared_second_fit(rows_s, tag, fdr_a, fdr_b, case, acc):
         FDR_NOW[0] = TRAIN_FDR
 
 
+def direction_fit(rows_s, tag, feature, fdr, case, acc):
+    """Model(direction=<feature>): the start labels must be the targets accepted at the model's train_fdr by that feature
+    in its better direction."""
+    label = {r["key"]: r["target"] for r in rows_s}
+    keys = list(label)
+    FDR_NOW[0] = fdr
+    try:
+        cands = [accepted(keys, [next(r[feature] for r in rows_s if r["key"] == k) for k in keys], label, d) for d in (True, False)]
+    finally:
+        FDR_NOW[0] = TRAIN_FDR
+    best = max(len(c) for c in cands)
+    cands = [c for c in cands if len(c) == best]
+    m = make_model("linear", first_only=False, max_iter=1, shuffle=False, rng=1, train_fdr=fdr, direction=feature)
+    try:
+        m.fit(make_psms(rows_s))
+    except RuntimeError as e:
+        if "performs worse" not in str(e) and best > 0:
+            acc.violation(Violation("direction-fit-refused", f"Model(direction={feature!r}, train_fdr={fdr}) on table {tag} raised "
+                                    f"'{e}' although the feature accepts {best} targets", dict(case, extras=True)))
+            return
+    except ValueError:
+        pass
+    acc.count("direction_fits")
+    first_fit = [e for e in m.estimator.log_ if e[0] == "fit"][:1]
+    if not first_fit:
+        if best > 0:
+            acc.count("direction_fit_without_fit_call")
+        return
+    pos = {k for k, v in zip(first_fit[0][2], first_fit[0][3]) if v == 1}
+    if pos not in cands:
+        acc.violation(Violation("direction-start-labels", f"Model(direction={feature!r}, train_fdr={fdr}) on table {tag}: first fit "
+                                f"got positives {sorted(pos)}, the targets accepted at train_fdr by that feature are "
+                                f"{[sorted(c) for c in cands]}", dict(case, extras=True)))
+
+
 def extras_case(case, acc):
     """Feature-column permutations at prediction time; save/load round trip."""
     from mokapot.model import save_model, load_model
@@ -302,6 +337,10 @@ def extras_case(case, acc):
         for rows_s, tag in ((rows0, "own"), (base_rows(8, 10), "v10"), (base_rows(9, 11), "v11")):
             for fdr_a, fdr_b in ((0.5, 0.26), (0.26, 0.5)):
                 shared_second_fit(rows_s, tag, fdr_a, fdr_b, case, acc)
+            # the starting feature named by the user
+            for feature in ("key", "f2", "f3"):
+                for fdr in (0.5, 0.26):
+                    direction_fit(rows_s, tag, feature, fdr, case, acc)
     # The SAME Model object fitted again on the same PSMs with the feature columns in another order: what the model
     # predicts for its training rows must be what its estimator returned for those rows in the last training iteration
     # (features are matched by name, also after a second fit).  A re-fit starts from the trained model, so it is NOT
